@@ -2607,6 +2607,11 @@ class SFTPHandler(SSHPacketLogger):
             await self._cleanup(None)
         except (OSError, Error) as exc:
             await self._cleanup(exc)
+        except Exception as exc: # pylint: disable=broad-except
+            # The connection may also be closed by an exception which
+            # isn't one of ours. Still fail any requests in progress.
+            await self._cleanup(SFTPConnectionLost(str(exc)))
+            raise
 
 
 class SFTPClientHandler(SFTPHandler):
